@@ -131,8 +131,7 @@ def translate_newlines(t: str) -> str:
 
 def py_lex(text: str, bytes_lit: bool = False):
     """(value, len(rest)) of the string literal token at the head of `text` according to the
-    running CPython (tokenize for the extent, compile+eval for the value), or None.
-    Precondition (caller): no CR after the literal (newline translation would shift offsets)."""
+    running CPython (tokenize for the extent, compile+eval for the value), or None."""
     t = translate_newlines(text)
     # the literal is looked at in isolation: characters the compiler refuses anywhere in a
     # source (NUL, lone surrogates) may follow it; cut the text before the first of them
@@ -156,13 +155,20 @@ def py_lex(text: str, bytes_lit: bool = False):
             v = eval(compile(lit, "<c16>", "eval"), {"__builtins__": {}}, {})
     except Exception:
         return None
+    # length of the rest in the ORIGINAL text: newline translation (CRLF / CR -> LF) may have shortened what
+    # follows the literal, so the end of the token is mapped back (the token ends with a quote, never inside CRLF)
+    j = end
+    while j <= len(text) and translate_newlines(text[:j]) != t[:end]:
+        j += 1
+    if j > len(text):
+        return None
     if bytes_lit:
         if not isinstance(v, bytes):
             return None
-        return list(v), len(t) - end
+        return list(v), len(text) - j
     if not isinstance(v, str):
         return None
-    return cps(v), len(t) - end
+    return cps(v), len(text) - j
 
 
 RESTS = ["", "]", ", MISSING)", ": 1}", ")", "\n", " ", "] = 1\n", "'", '"', "''", '""', "'x'", "x", "\\", "#", "}"]
@@ -627,6 +633,130 @@ def line_tie(ctx: vlib.Ctx):
         ctx.correspondence(name, len(cases), len(bad), "; ".join(repr(shown[i])[:100] for i in bad[:6]))
         if bad:
             ctx.not_shown("correspondence " + name, "; ".join(repr(shown[i])[:120] for i in bad[:6]))
+    ctx.count(n=len(cases))
+
+
+# ---------------------------------------------------------------------------
+# roles (round 6): the ROLE the text classifier of PyUse.v gives every literal of the generated
+# functions vs the role CPython's own parser gives it (parent node of the ast.Constant)
+# ---------------------------------------------------------------------------
+
+def _ast_role(chain, field, idx, node) -> str:
+    """chain = [(ancestor, field, idx) ...] nearest last; the role of `node` in its parent"""
+    import ast
+    parent = chain[-1][0]
+    if isinstance(parent, ast.Subscript) and field == "slice":
+        return "USub"
+    if isinstance(parent, ast.Call) and field == "args":
+        if idx == 0:
+            return "UGet" if isinstance(parent.func, ast.Attribute) and parent.func.attr == "get" else "UArg"
+        return "UElem"
+    if isinstance(parent, ast.Dict) and field == "keys":
+        return "UDictKey"
+    if isinstance(parent, (ast.Set, ast.List)) and field == "elts":
+        return "UElem"
+    if isinstance(parent, ast.Tuple) and field == "elts":
+        # the first element of a tuple written WITHOUT parentheses stands where the tuple stands
+        if idx == 0 and (parent.lineno, parent.col_offset) == (node.lineno, node.col_offset) and len(chain) > 1:
+            _, pf, pi = chain[-2]
+            return _ast_role(chain[:-1], pf, pi, parent)
+        return "UElem"
+    if isinstance(parent, ast.Compare) and field == "comparators" and isinstance(parent.ops[idx], (ast.Eq, ast.NotEq)):
+        return "UCmp"
+    return "UOther"
+
+
+def py_use_roles(text: str):
+    """[(role, value)] of every string / bytes literal token of `text`, in order, by CPython's PARSER; None
+    when CPython refuses the text or the line model does not cover it (see py_line_literals); "skip" when a
+    literal token is not the start of an ast.Constant (implicit concatenation) - such texts are left out"""
+    import ast
+    vals = py_line_literals(text)
+    if vals is None:
+        return None
+    try:
+        with warnings.catch_warnings():
+            warnings.simplefilter("ignore")
+            tree = ast.parse(text)
+            toks = list(tokenize.generate_tokens(io.StringIO(text).readline))
+    except Exception:
+        return None
+    lines = text.split("\n")
+    role_at = {}
+
+    def visit(node, chain):
+        for field, val in ast.iter_fields(node):
+            items = val if isinstance(val, list) else [val]
+            for idx, ch in enumerate(items):
+                if not isinstance(ch, ast.AST):
+                    continue
+                here = chain + [(node, field, idx)]
+                if isinstance(ch, ast.Constant) and isinstance(ch.value, (str, bytes)):
+                    ln = lines[ch.lineno - 1]
+                    col = len(ln.encode("utf-8")[: ch.col_offset].decode("utf-8", "replace"))
+                    role_at[(ch.lineno, col)] = _ast_role([(a, f, i) for a, f, i in here], field, idx, ch)
+                visit(ch, here)
+    visit(tree, [])
+    out, k = [], 0
+    for t in toks:
+        if t.type == tokenize.STRING:
+            r = role_at.get(t.start)
+            if r is None or k >= len(vals):
+                return "skip"
+            out.append((r, vals[k]))
+            k += 1
+    return out
+
+
+def coq_uses(us) -> str:
+    if us is None:
+        return "None"
+    return "Some [" + "; ".join("(%s, %s)" % (r, ("VB " + coq_nl(list(v))) if isinstance(v, bytes) else ("VS " + coq_nl(cps(v)))) for r, v in us) + "]"
+
+
+USE_HAND = [
+    "value = d.get('a', MISSING)", "kwargs['a'] = value", "x = {'a': 1, 'b': 'c'}", "s = {'a', 'b'}", "f('a', 'b')", "return 'a'",
+    "if value == 'a':\n    pass", "if value != b'a':\n    pass", "x = ('a', 1)", "x = ('a')", "x = ['a', 'b']", "t = typing.Literal['a', 'b']",
+    "budget('a')", "if value.__class__ is ('a').__class__ and value == 'a':\n    pass", "x = 'a', 'b'",
+    "raise ValueError('a') from None", "x = f(y)['a']", "x = f(y)('a')", "x = 'abc'[0]", "d['a']['b'] = 1", "f(k='a')", "x = {**d, 'a': 1}",
+]
+
+
+def use_tie(ctx: vlib.Ctx):
+    rng = ctx.rng
+    n = ctx.budget(250, 2500)
+    whole = sorted(set(GENERATED))
+    rng.shuffle(whole)
+    cases, shown = [], []
+    nlit = 0
+    for t in whole[:n] + USE_HAND:
+        e = py_use_roles(t)
+        if e == "skip":
+            ctx.hist("use_tie", "left-out (implicit concatenation)")
+            continue
+        if e:
+            nlit += len(e)
+            for r, _ in e:
+                ctx.hist("use_tie_roles", r)
+        ctx.hist("use_tie", "with-literals" if e else ("rejected/not-modelled" if e is None else "no-literal"))
+        cases.append(f"({coq_nl(cps(t))}, {coq_uses(e)})")
+        shown.append(t)
+    ctx.coverage["use_tie_generated_texts"] = {"captured_programs": len(GENERATED), "distinct_programs": len(whole), "literal_roles_compared": nlit}
+    bad, log = vlib.coq_bad_idx("c16_use", "PyStrLit PyLine PyUse", "", "Local Open Scope N_scope.\n", cases, "use_case_ok",
+                                "list N * option (list (use * lval))", shard=60, needs=["theories/PyUse.vo"])
+    name = "use-roles-model-vs-cpython-ast (generated functions)"
+
+    def brief(i):
+        t = shown[i]
+        e = py_use_roles(t)
+        return repr(t)[:160] + " expected roles " + str([r for r, _ in (e or [])][:12])
+    if bad is None:
+        ctx.correspondence(name, len(cases), -1, log)
+        ctx.not_shown("correspondence " + name, log)
+    else:
+        ctx.correspondence(name, len(cases), len(bad), "; ".join(brief(i) for i in bad[:4]))
+        if bad:
+            ctx.not_shown("correspondence " + name, "; ".join(brief(i) for i in bad[:4]))
     ctx.count(n=len(cases))
 
 
@@ -1182,7 +1312,7 @@ def oracle(ctx: vlib.Ctx, boost: bool = False):
 # the check
 # ---------------------------------------------------------------------------
 
-THEOREMS = ["C16_float_inert", "C16_ident_sites", "C16_ident_site", "C16_line_literal", "C16_line_literal_bytes", "C16_site_line", "C16_render_eval", "C16_sites_full", "C16_site_value", "C16_default_branches_safe", "C16_default_literal_general",
+THEOREMS = ["C16_use_stable", "C16_text_use", "C16_site_use", "C16_site_use_whole", "C16_key_eq_exact", "C16_float_inert", "C16_ident_sites", "C16_ident_site", "C16_line_literal", "C16_line_literal_bytes", "C16_site_line", "C16_render_eval", "C16_sites_full", "C16_site_value", "C16_default_branches_safe", "C16_default_literal_general",
             "C16_default_literal", "C16_repr_tuple_refuted", "C16_repr_lex", "C16_ascii_lex", "C16_repr_bytes_lex", "C16_repr_clean", "C16_raw_plain_lex",
             "C16_raw_refuted", "C16_sites", "C16_site_literal", "C16_site_guarded", "C16_ident_char_inert",
             "C16_site_literal_bytes"]
@@ -1267,6 +1397,7 @@ def run(ctx: vlib.Ctx):
     broken = bool(ctx.unshown)
     oracle(ctx, boost=broken)
     line_tie(ctx)
+    use_tie(ctx)
 
 
 def replay(rep: dict) -> int:
